@@ -576,7 +576,7 @@ impl Monitors {
     }
 }
 
-#[derive(Clone, Debug, Default)]
+#[derive(Clone, Debug, Default, Serialize, Deserialize)]
 pub struct Stats {
     pub counters: BTreeMap<String, u64>,
     /// sequence of (operation, outcome class): its hash is the run's abstract trace
